@@ -288,6 +288,26 @@ fn oracle(case: &[u8], obs: &mut Obs) -> Result<(), String> {
         let s = f.add_sec(b".shstrtab", m::SHT_STRTAB, vec![]);
         f.shstrndx = Some(s);
     }
+    // symbol versions with SEPARATE string tables for requirements and definitions
+    let mut ver: Option<(usize, usize, usize)> = None;
+    if c.chance(90) {
+        let mut model = refs::gen_version_model(&mut c, 3, 3, 3, 8);
+        model.versym.resize(8, 1);
+        if !model.needs.is_empty() && !model.defs.is_empty() {
+            let vs = refs::build_versions(enc, &model, &mut c, true, false);
+            let i_n = f.add_sec(b".needstr", m::SHT_STRTAB, vs.need_strs.clone());
+            let i_d = f.add_sec(b".defstr", m::SHT_STRTAB, vs.def_strs.clone());
+            let i = f.add_sec(b".gnu.version", m::SHT_GNU_VERSYM, vs.versym.clone());
+            f.secs[i].hdr.sh_entsize = 2;
+            let i = f.add_sec(b".gnu.version_r", m::SHT_GNU_VERNEED, vs.verneed.clone());
+            f.secs[i].hdr.sh_link = i_n as u32;
+            f.secs[i].hdr.sh_info = model.needs.len() as u32;
+            let i = f.add_sec(b".gnu.version_d", m::SHT_GNU_VERDEF, vs.verdef.clone());
+            f.secs[i].hdr.sh_link = i_d as u32;
+            f.secs[i].hdr.sh_info = model.defs.len() as u32;
+            ver = Some((i_n, i_d, model.versym.len()));
+        }
+    }
     filegen::random_layout(&mut c, &mut f, 24);
     let first = filegen::build(&f);
     let len = first.bytes.len() as u64;
@@ -344,6 +364,32 @@ fn oracle(case: &[u8], obs: &mut Obs) -> Result<(), String> {
                         return Err(format!("section-name string at offset {} does not point at sh_offset+{} of the designated string table", k, k));
                     }
                     cx.checked += 1;
+                }
+            }
+        }
+        if let Some((i_n, i_d, nsym)) = ver {
+            let within = |s: &str, i: usize| -> bool {
+                let h = &b.shdrs[i];
+                let p = s.as_ptr() as usize;
+                let base = cx.data.as_ptr() as usize + h.sh_offset as usize;
+                s.is_empty() || (p >= base && p + s.len() <= base + h.sh_size as usize)
+            };
+            if let Ok(Some(t)) = file.symbol_version_table() {
+                for i in 0..nsym {
+                    if let Ok(Some(r)) = t.get_requirement(i) {
+                        if !within(r.file, i_n) || !within(r.name, i_n) {
+                            return Err(format!("get_requirement({}) returned strings ({:?}, {:?}) that do not lie in the string table .gnu.version_r links to", i, r.file, r.name));
+                        }
+                        cx.checked += 1;
+                    }
+                    if let Ok(Some(d)) = t.get_definition(i) {
+                        for nm in d.names.take(8).flatten() {
+                            if !within(nm, i_d) {
+                                return Err(format!("get_definition({}) returned the name {:?} which does not lie in the string table .gnu.version_d links to", i, nm));
+                            }
+                            cx.checked += 1;
+                        }
+                    }
                 }
             }
         }
